@@ -428,16 +428,58 @@ Proof.
   eapply mco_resume_Inv; eauto.
 Qed.
 
+(* coroutine.resume, by cases: it either succeeds (the arguments are pushed, control is transferred) or it
+   fails and the WHOLE state is what it was: a failed push is rolled back by coroutine.push, a refused
+   minicoro.resume makes coroutine.resume pop its arguments again (needs the repaired code: resume_rolls_back) *)
+Lemma co_resume_cases : forall k vals s r s', Inv s -> co_resume k vals s = (r, s') ->
+  (r = COk /\ exists s1, (match vals with [] => (COk, s) | _ :: _ => co_push k vals s end) = (COk, s1) /\
+                         mco_resume k s1 = (MCO_SUCCESS, s')) \/
+  ((exists e, r = CErr e) /\ s' = s).
+Proof.
+  intros k vals s r s' (I1 & I2 & I3) H. unfold co_resume in H. rewrite resume_rolls_back in H.
+  destruct vals as [|v vr].
+  - destruct (mco_resume k s) as [e s2] eqn:R. destruct (is_success e) eqn:Es.
+    + destruct e; simpl in Es; try discriminate. inversion H; subst. left. split; [reflexivity|]. eauto.
+    + inversion H; subst. right. split; [eauto|]. eapply mco_resume_err; eauto. intro; subst; discriminate.
+  - destruct (get k (cos s)) as [c|] eqn:G.
+    + pose proof (I2 k c G) as W.
+      assert (L : List.length (storage c) <= co_cap c).
+      { rewrite (storage_length c W). destruct W as (_ & X & _). exact X. }
+      pose proof (co_push_ws s k c (v :: vr) (storage c) L) as X.
+      rewrite (ws_id s k c G W) in X. rewrite X in H.
+      destruct (fit_spec (co_cap c) (v :: vr) (storage c) L) as (t & A & B & C & D).
+      destruct (snd (fit (co_cap c) (storage c) (v :: vr))) eqn:E;
+        try (inversion H; subst; right; split; [eauto|reflexivity]).
+      rewrite (C eq_refl) in B. clear A C D t.
+      set (S1 := storage c ++ List.concat (v :: vr)) in *.
+      destruct (mco_resume k (with_st s k c S1)) as [e s2] eqn:R. destruct (is_success e) eqn:Es.
+      * destruct e; simpl in Es; try discriminate. inversion H; subst. left. split; [reflexivity|].
+        exists (with_st s k c S1). split; [exact X|exact R].
+      * assert (E2 : s2 = with_st s k c S1) by (eapply mco_resume_err; eauto; intro; subst; discriminate).
+        subst s2. rewrite mco_pop_ws in H by exact B.
+        right. split; [destruct (Nat.eqb _ _) in H; [|destruct (Nat.ltb _ _) in H]; inversion H; eauto|].
+        unfold S1 in *. rewrite app_length in H.
+        destruct (Nat.eqb (List.length (List.concat (v :: vr))) 0) eqn:E0.
+        { apply Nat.eqb_eq in E0. apply length_zero_iff_nil in E0. rewrite E0 in H. rewrite app_nil_r in H.
+          inversion H; subst. apply ws_id; assumption. }
+        { replace (Nat.ltb (List.length (storage c) + List.length (List.concat (v :: vr))) (List.length (List.concat (v :: vr))))
+            with false in H by (symmetry; apply Nat.ltb_ge; lia).
+          replace (List.length (storage c) + List.length (List.concat (v :: vr)) - List.length (List.concat (v :: vr)))
+            with (List.length (storage c)) in H by lia.
+          rewrite firstn_app_len in H. inversion H; subst. apply ws_id; assumption. }
+    + (* nil: coroutine.push fails at the first value and nothing was pushed *)
+      assert (P : co_push k (v :: vr) s = (CErr MCO_INVALID_COROUTINE, s)).
+      { unfold co_push. cbn [push_loop]. unfold mco_push at 1. rewrite G. cbn [is_success].
+        unfold mco_pop. rewrite G. reflexivity. }
+      rewrite P in H. inversion H; subst. right. split; [eauto|reflexivity].
+Qed.
+
 Lemma co_resume_Inv : forall k vals s r s', Inv s -> co_resume k vals s = (r, s') -> Inv s'.
 Proof.
-  intros k vals s r s' I H. unfold co_resume in H.
-  destruct (match vals with [] => (COk, s) | _ :: _ => co_push k vals s end) as [r1 s1] eqn:P.
-  assert (I1 : Inv s1).
-  { destruct vals; [inversion P; subst; assumption|].
-    eapply same_ctl_Inv; [eapply co_push_same; eauto|assumption]. }
-  destruct r1; try (inversion H; subst; assumption).
-  destruct (mco_resume k s1) as [e s2] eqn:R. inversion H; subst.
-  eapply mco_resume_Inv'; eauto.
+  intros k vals s r s' I H. destruct (co_resume_cases _ _ _ _ _ I H) as [(-> & s1 & P & R)|(_ & ->)]; [|exact I].
+  eapply mco_resume_Inv; [|exact R].
+  destruct vals; [inversion P; subst; assumption|].
+  eapply same_ctl_Inv; [eapply co_push_same; eauto|assumption].
 Qed.
 
 Lemma mco_yield_running_Inv : forall s e s', Inv s -> mco_yield_running s = (e, s') -> Inv s'.
